@@ -247,7 +247,7 @@ def run_worker(args):
         dg = {}
         sampled = scen not in ("pairs", "triples", "enum")
         if args.get("only_det"):
-            indices = range(0, min(DET_SAMPLE, total))
+            indices = range(0, min(args.get("det_sample", DET_SAMPLE), total))
         else:
             indices = range(w, total, n)
         for index in indices:
@@ -256,7 +256,7 @@ def run_worker(args):
             done += 1
             prop.account(acc, spec, res)
             count_faults(acc, spec, res)
-            if sampled and index < DET_SAMPLE:
+            if sampled and index < args.get("det_sample", DET_SAMPLE):
                 dg[str(index)] = [res["digest"], res["sched_digest"], bool(res["violations"])]
             if res["violations"]:
                 out["nviol"] += 1
@@ -318,6 +318,9 @@ def run_check(pid, tier, seed, nworkers):
     if pr1 or pr2 or not n1 or not n2:
         raise Harness("reference self-check failed (model/validator vs testdata): %s" % ((pr1 + pr2)[:3] or "no reference files found"))
     work = [(s, prop.count(s, tier)) for s in prop.scen_order if prop.count(s, tier)]
+    import glob
+    for old in glob.glob(os.path.join(VERIF, "replays", pid + "-*.json")):
+        os.remove(old)
     wd = os.path.join(VERIF, ".work", "%s-%s-%d" % (pid, tier, os.getpid()))
     shutil.rmtree(wd, ignore_errors=True)
     os.makedirs(wd)
